@@ -38,7 +38,8 @@ ParseStep(a, line) ==
 \* result: entries in file order, and whether the file is exactly a sequence of frames
 Parse(f) ==
   LET r == FoldLeft(ParseStep, ParseInit, f.lines)
-  IN  [entries |-> r.m, order |-> r.order, wellformed |-> ~r.inb /\ ~r.dup]
+  IN  [entries |-> r.m, order |-> r.order, wellformed |-> ~r.inb /\ ~r.dup,
+       hs |-> {r.m[i].h : i \in DOMAIN r.m}]
 
 HasEntry(p, h)  == \E i \in DOMAIN p.entries : p.entries[i].h = h
 BodyOf(p, h)    == LET i == CHOOSE i \in DOMAIN p.entries : p.entries[i].h = h IN p.entries[i].b
